@@ -367,10 +367,73 @@ def make_memo_cases(rng, n):
         cfg = gen_config(rng, (yk, hk, "none", rk, 0, mode, "iso"))
         nn = 6 if mode == "3D" else 3
         cfg["solver"] = "auto" if i % 4 != 3 else "newton"
-        cfg["elastic2"] = {"kind": "iso", "E": float("%.4g" % (cfg["elastic"]["E"] * rng.choice([0.5, 0.8, 1.7]))), "v": float("%.2f" % min(0.45, max(0.02, cfg["elastic"]["v"] + rng.choice([-0.1, 0.07]))))}
+        E0, v0 = cfg["elastic"]["E"], cfg["elastic"]["v"]
+        kind = ["large", "rel1e-6", "rel1e-9", "ulp", "rel4e-6", "v-rel1e-7"][i % 6]
+        if kind == "large":
+            cfg["elastic2"] = {"kind": "iso", "E": float("%.4g" % (E0 * rng.choice([0.5, 0.8, 1.7]))), "v": float("%.2f" % min(0.45, max(0.02, v0 + rng.choice([-0.1, 0.07]))))}
+        elif kind == "ulp":
+            cfg["elastic2"] = {"kind": "iso", "E": math.nextafter(E0, math.inf), "v": v0}
+        elif kind == "v-rel1e-7":
+            cfg["elastic2"] = {"kind": "iso", "E": E0, "v": v0 * (1 + 1e-7)}
+        else:
+            cfg["elastic2"] = {"kind": "iso", "E": E0 * (1 + float(kind[3:])), "v": v0}
+        cfg["change_kind"] = kind
         d = unit_dir(rng, nn)
         cfg["eps"] = [[cfg["eps_y"] * a * x for x in d] for a in (0.4, 2.5, 5.0)]
-        cfg["id"] = "memo%02d-%s-%s-%s-%s-%s" % (i, yk, hk, rk, mode, cfg["solver"])
+        cfg["id"] = "memo%02d-%s-%s-%s-%s-%s-%s" % (i, yk, hk, rk, mode, cfg["solver"], kind)
         cfg["combo"] = [yk, hk, "none", rk, 0, mode, "iso"]
         out.append(cfg)
     return out
+
+
+STRESS_KEYS = {"elastic": ["E", "E1", "E2", "E3", "G12", "G13", "G23", "El", "Et", "Gl"], "yield": ["sigma_y"],
+               "hardening": ["H", "Q", "K"], "rate": ["sigma_0"]}
+
+
+def scale_units(cfg, s):
+    """The same material expressed in other stress units: every stress-like parameter times s
+    (moduli, sigma_y, hardening moduli, kinematic moduli, the rate law's reference stress);
+    dimensionless and time-like parameters (nu, b, n, eps0, gamma, A, eta, g, tau, Hill/DP
+    coefficients) unchanged."""
+    import copy
+    c = copy.deepcopy(cfg)
+    for grp, keys in STRESS_KEYS.items():
+        if c.get(grp):
+            for k in keys:
+                if k in c[grp]:
+                    c[grp][k] = c[grp][k] * s
+    if c.get("kinematic"):
+        c["kinematic"] = [[C * s, g] for C, g in c["kinematic"]]
+    return c
+
+
+UNIT_SCALES = [1e-3, 1e-6, 1e4]
+
+
+def make_unit_cases(rng, n):
+    """Unit invariance: for each base material + strain path, the same material in units where
+    stresses are s times larger (sigma_y < 1 and > 1e6 included) must give stress = s x stress,
+    the same plastic strain and the same active set."""
+    groups = []
+    for i in range(n):
+        yk = ["VonMises", "Hill", "DruckerPrager"][i % 3] if i % 5 else "VonMises"
+        hk = HARDS[i % 4]
+        kk = "none" if i % 3 else rng.choice(["Prager", "AF"])
+        rk = "none" if i % 4 else rng.choice(["Norton1", "NortonN", "Perzyna"])
+        nb = 0 if i % 6 else 1
+        mode = MODES[i % 3]
+        cfg = gen_config(rng, (yk, hk, kk, rk, nb, mode, rng.choice(ELASTICS)))
+        nn = 6 if mode == "3D" else 3
+        cfg["path"] = gen_path(rng, ["proportional", "reversal"][i % 2], nn, cfg["eps_y"], 6)
+        cfg["combo"] = [yk, hk, kk, rk, nb, mode, cfg["elastic"]["kind"]]
+        cfg["path_kind"] = "units"
+        cfg["fd_steps"] = []
+        cfg["compare_solver"] = (yk in ("VonMises", "Hill") and kk == "none" and nb == 0)
+        members = []
+        for s in [1.0] + UNIT_SCALES:
+            c = scale_units(cfg, s)
+            c["unit_scale"] = s
+            c["id"] = "unit%02d-s%g-%s" % (i, s, "/".join(str(x) for x in cfg["combo"]))
+            members.append(c)
+        groups.append(members)
+    return groups
